@@ -2,6 +2,7 @@
 import importlib
 
 MODULES = [
+    "contracts.py_lexer",
     "contracts.py_types",
     "contracts.lem_call",
     "contracts.lem_time",
